@@ -235,7 +235,7 @@ func c07Run(r *simkit.Run) {
 	r.Sched(simkit.SchedOpts{MaxSteps: 3000000, Stick: r.DrawStick(), MaxSim: 3 * time.Hour,
 		Quanta: []time.Duration{time.Millisecond, 33 * time.Millisecond, 300 * time.Millisecond, time.Second, 3 * time.Second}})
 
-	if r.Live() > 0 {
+	if r.Unfinished() {
 		r.Fail("liveness", "selector", "Select did not return on every node (%d of %d done)", done, nlive)
 	}
 
